@@ -215,6 +215,61 @@ fn rewrite_text(rng: &mut Rng, v: &Value, out: &mut String) {
 	}
 }
 
+/// change one object somewhere inside a (canonical) value through the public object API: replace the value of an existing
+/// key by a non-canonical number (insert, insert_front, get_mut_or_insert_with, iter_mut, get_mut), or push a new member
+/// that sorts first; keys stay unique
+fn mutate_in_place(rng: &mut Rng, v: &mut Value, heavy: bool) -> bool {
+	match v {
+		Value::Array(a) => {
+			let n = a.len();
+			if n == 0 {
+				return false;
+			}
+			let i = rng.below(n);
+			mutate_in_place(rng, &mut a[i], heavy)
+		}
+		Value::Object(o) => {
+			if o.is_empty() {
+				return false;
+			}
+			let i = rng.below(o.len());
+			if rng.chance(1, 3) && mutate_in_place(rng, &mut o.iter_mut().nth(i).unwrap().1, heavy) {
+				return true;
+			}
+			let key = o.entries()[i].key.clone();
+			let fresh = num(*rng.pick(&["1.0", "2E0", "0.5e1", "100e-2", "1E2", "-0.0", "0.10"]));
+			match rng.below(6) {
+				0 => {
+					let _ = o.insert(key, fresh).map(|r| r.count());
+				}
+				1 => {
+					let _ = o.insert_front(key, fresh).count();
+				}
+				2 => {
+					*o.get_mut_or_insert_with(key.as_str(), || Value::Null) = fresh;
+				}
+				3 => {
+					*o.iter_mut().nth(i).unwrap().1 = fresh;
+				}
+				4 => {
+					if let Some(x) = o.get_mut(key.as_str()).next() {
+						*x = fresh;
+					}
+				}
+				_ => {
+					if !o.contains_key("") {
+						o.push("".into(), fresh);
+					} else {
+						*o.get_unique_mut("").ok().flatten().unwrap() = fresh;
+					}
+				}
+			}
+			true
+		}
+		_ => false,
+	}
+}
+
 /// a value in which keys repeat (outside I-JSON): the members sharing a key hold numbers in several spellings (some
 /// numerically equal, some whose lexical and numeric orders disagree), nested objects and arrays
 fn dup_value(rng: &mut Rng, depth: usize) -> Value {
@@ -278,6 +333,31 @@ pub fn record(args: &Args) {
 		let qfail = queries_after(&mut c);
 		lines.push(json!({"ev": "canon", "v": project(&v), "out": if r.is_ok() { project(&c) } else { json!({"t": "panic"}) }, "text": str_to_cps(&text),
 			"again": str_to_cps(&c2.compact_print().to_string()), "nums": certs, "objs": objs, "queries_ok": qfail.is_none()}));
+		// The canonical value is then CHANGED in place through the object API and canonicalized again (the same instance:
+		// whatever it remembers from the first call must not matter); recorded as one more `canon` event whose input is the
+		// changed value.
+		if r.is_ok() && i % 3 == 1 {
+			let mut m = c.clone();
+			let changed = mutate_in_place(&mut rng, &mut m, heavy);
+			if changed {
+				let before = m.clone();
+				let mut sps2 = vec![];
+				numbers_of(&before, &mut sps2);
+				let certs2: Vec<J> = sps2.iter().filter_map(|s| certificate(s)).collect();
+				if certs2.len() == sps2.len() {
+					let r2 = guarded(|| m.canonicalize());
+					let text2 = m.compact_print().to_string();
+					let mut m2 = m.clone();
+					m2.canonicalize();
+					let mut objs2 = vec![];
+					objects_of(&m, &mut objs2);
+					let q2 = queries_after(&mut m);
+					numbers += certs2.len();
+					lines.push(json!({"ev": "canon", "v": project(&before), "out": if r2.is_ok() { project(&m) } else { json!({"t": "panic"}) }, "text": str_to_cps(&text2),
+						"again": str_to_cps(&m2.compact_print().to_string()), "nums": certs2, "objs": objs2, "queries_ok": q2.is_none(), "after_mutation": true}));
+				}
+			}
+		}
 		// a rewriting of the same document (C10)
 		if i % 2 == 0 {
 			let mut tb = String::new();
@@ -296,7 +376,18 @@ pub fn record(args: &Args) {
 	// and blind to member order, spacing, escaping and number spelling (no canonical text is prescribed for such values,
 	// only the relations between outputs are checked)
 	for i in 0..n / 3 + 8 {
-		let v = dup_value(&mut rng, 1 + i % 2);
+		let v = if i == 1 || i == 5 {
+			// a wide object (sorting may switch algorithm with the size): 70 members, several keys repeated with values whose
+			// spelled order and canonical order differ
+			let mut es: Vec<Entry> = (0..70).map(|j| Entry::new(format!("k{:02}", (j * 7) % 64).as_str().into(), num(&format!("{}", j)))).collect();
+			es.push(Entry::new("dup".into(), num("2")));
+			es.push(Entry::new("dup".into(), num("0.5e1")));
+			es.push(Entry::new("dup".into(), num("1")));
+			rng.shuffle(&mut es);
+			Value::Object(es.into_iter().collect())
+		} else {
+			dup_value(&mut rng, 1 + i % 2)
+		};
 		let mut tb = String::new();
 		rewrite_text(&mut rng, &v, &mut tb);
 		let r = guarded(|| {
